@@ -109,6 +109,12 @@ Proof.
   split; [reflexivity|intros v'; apply exe_cached].
 Qed.
 
+Lemma exe_fallback_and_cache_now : forall r v',
+  wf_proc r = true ->
+  fe_exe now None (view_proc r) = (Val (spec_exe r), Some (spec_exe r))
+  /\ fe_exe now (Some (spec_exe r)) v' = (Val (spec_exe r), Some (spec_exe r)).
+Proof. intros r v' H1. apply exe_fallback_and_cache; auto. intros H; discriminate H. Qed.
+
 (* ---------------------------------------------------------------- name() *)
 Lemma name_long_ascii c comm :
   (name_chars c = true -> is_ascii comm = true) ->
@@ -148,6 +154,15 @@ Proof.
     rewrite E. destruct (spec_cmdline (p_cmd r)); reflexivity.
 Qed.
 
+Lemma name_spec_now : forall r,
+  wf_proc r = true -> fe_name now (view_proc r) = Val (spec_name r).
+Proof. intros r H1. apply name_spec; auto; intros H; discriminate H. Qed.
+
+Lemma name_spec_before_fix : forall r,
+  wf_proc r = true -> cmd_no_cr (p_cmd r) = true -> is_ascii (p_comm r) = true ->
+  fe_name before_fix (view_proc r) = Val (spec_name r).
+Proof. intros r H1 H2 H3. apply name_spec; auto. Qed.
+
 (* a zombie has a name but no command line *)
 Lemma name_zombie : forall c v,
   v_stat v = Some true -> v_cmdline v = FData [] -> fe_name c v = Val (v_comm v).
@@ -159,7 +174,7 @@ Qed.
 
 Lemma name_multibyte_refuted :
   exists r, wf_proc r = true /\ cmd_no_cr (p_cmd r) = true /\ length (p_comm r) = 15%nat /\
-            fe_name cur (view_proc r) = Val (p_comm r) /\ spec_name r <> p_comm r.
+            fe_name before_fix (view_proc r) = Val (p_comm r) /\ spec_name r <> p_comm r.
 Proof.
   exists {| p_comm := bs "abcdefghijklm" ++ [195; 169];
             p_cmd := KArgv [bs "/usr/bin/abcdefghijklm" ++ [195; 169] ++ bs "-daemon"; bs "--fg"];
@@ -173,7 +188,7 @@ Qed.
 Lemma name_cut_char_refuted :
   exists r, wf_proc r = true /\ cmd_no_cr (p_cmd r) = true /\ ulen (p_comm r) = 15%nat /\
             prefixb (p_comm r) (basename (hd [] (spec_cmdline (p_cmd r)))) = true /\
-            fe_name cur (view_proc r) = Val (p_comm r) /\ spec_name r <> p_comm r.
+            fe_name before_fix (view_proc r) = Val (p_comm r) /\ spec_name r <> p_comm r.
 Proof.
   exists {| p_comm := bs "abcdefghijklmn" ++ [195];
             p_cmd := KArgv [bs "abcdefghijklmn" ++ [195; 169] ++ bs "z"];
